@@ -172,8 +172,8 @@ func checkC13(c *core.Ctx, l *core.Ledger) {
 		}
 		var borrow ssa.Instruction
 		core.Instrs(f, func(in ssa.Instruction) {
-			if call, ok := in.(*ssa.Call); ok && call.Call.StaticCallee() != nil && strings.HasPrefix(call.Call.StaticCallee().Name(), "borrowLazy") {
-				borrow = in
+			if call, ok := in.(*ssa.Call); ok && call.Call.StaticCallee() != nil && calleeReaches(call.Call.StaticCallee(), "borrowLazy", 3) {
+				borrow = in // the construction itself, or a helper of the package that performs it
 			}
 		})
 		if borrow == nil {
@@ -245,4 +245,27 @@ func recvIs(o *types.Func, name string) bool {
 		return false
 	}
 	return core.RecvTypeName(sig.Recv().Type()) == name
+}
+
+// calleeReaches: f is, or statically calls within a few steps (same package),
+// a function whose name starts with prefix.
+func calleeReaches(f *ssa.Function, prefix string, depth int) bool {
+	if f == nil {
+		return false
+	}
+	if strings.HasPrefix(f.Name(), prefix) {
+		return true
+	}
+	if depth == 0 || len(f.Blocks) == 0 {
+		return false
+	}
+	found := false
+	core.Instrs(f, func(in ssa.Instruction) {
+		if call, ok := in.(*ssa.Call); ok {
+			if cal := call.Call.StaticCallee(); cal != nil && cal.Pkg == f.Pkg && cal != f && calleeReaches(cal, prefix, depth-1) {
+				found = true
+			}
+		}
+	})
+	return found
 }
